@@ -19,6 +19,16 @@
 //!
 //! modes: record --runs N --out F      seeded random programs
 //!        replay --in P --out F        programs from TLC (ndjson), snapshots compared with "snap"
+//!        rounds --rounds R --gated G --threads N --out F
+//!             concurrent use of ONE recorder, real parallel threads: per round a fresh DebuggingRecorder shared
+//!             by N threads; behind a spin barrier every thread builds an equal key its own way, registers it as
+//!             counter, gauge, histogram (a barrier before each) and updates the handle it got once
+//!             (increment(1), increment(1.0), record(tid)); after all threads have finished (no snapshot runs
+//!             concurrently with updates) the snapshot is logged as a `round` event.  The first R rounds run
+//!             free; G further rounds are *gated*: a per-thread verification hook parks each thread at the
+//!             `reg.gap.pre` point of Registry::get_or_create_* (between dropping the shard read guard and
+//!             taking the write guard) until all N threads are there, i.e. the schedule in which every thread
+//!             misses the key under the read guard (if the point is not reached, nothing is parked).
 use metrics::{Counter, Gauge, Histogram, Key, KeyName, Label, Level, Metadata, Recorder, SharedString, Unit};
 use metrics_util::debugging::{DebugValue, DebuggingRecorder, Snapshotter};
 use metrics_util::MetricKind;
@@ -521,6 +531,141 @@ fn random_program(rng: &mut StdRng) -> Value {
     json!({"recs": recs, "w": w, "ops": ops})
 }
 
+// ------------------------------------------------------------------------------------------------ parallel rounds
+use std::sync::atomic::{AtomicUsize, Ordering as AO};
+use std::sync::Arc;
+
+thread_local! {
+    static CUR_GATE: std::cell::Cell<usize> = std::cell::Cell::new(usize::MAX);
+}
+
+fn spin_until(a: &AtomicUsize, n: usize, limit: Option<std::time::Duration>) -> bool {
+    let t0 = std::time::Instant::now();
+    let mut i = 0u32;
+    while a.load(AO::Acquire) < n {
+        i += 1;
+        if i < 4000 {
+            std::hint::spin_loop();
+        } else {
+            std::thread::yield_now();
+            if let Some(l) = limit {
+                if i % 64 == 0 && t0.elapsed() > l {
+                    return false;
+                }
+            }
+        }
+    }
+    true
+}
+
+/// `rounds` rounds with `n` threads sharing one fresh recorder per round; returns (events, bad rounds, gate timeouts)
+fn run_rounds(n: usize, rounds: usize, gated: bool, base: usize, out: &mut Writer) -> (usize, usize, usize) {
+    if rounds == 0 {
+        return (0, 0, 0);
+    }
+    let recs: Vec<DebuggingRecorder> = (0..rounds).map(|_| DebuggingRecorder::new()).collect();
+    let starts: Vec<AtomicUsize> = (0..rounds * 3).map(|_| AtomicUsize::new(0)).collect();
+    let gates: Arc<Vec<AtomicUsize>> = Arc::new((0..rounds * 3).map(|_| AtomicUsize::new(0)).collect());
+    let timeouts = Arc::new(AtomicUsize::new(0));
+    let panics = AtomicUsize::new(0);
+    let shape = |round: usize| -> (i64, i64) { (1 + ((base + round) % 3) as i64, [2i64, 4, 1, 2, 0, 4, 3][(base + round) % 7]) };
+    std::thread::scope(|sc| {
+        for t in 1..=n {
+            let (recs, starts, panics) = (&recs, &starts, &panics);
+            let gates = gates.clone();
+            let timeouts = timeouts.clone();
+            sc.spawn(move || {
+                if gated {
+                    let g2 = gates.clone();
+                    let to = timeouts.clone();
+                    metrics::verif::install(Box::new(move |site, _| {
+                        if site == "reg.gap.pre" {
+                            let g = CUR_GATE.with(|c| c.replace(usize::MAX));
+                            if g != usize::MAX {
+                                g2[g].fetch_add(1, AO::AcqRel);
+                                if !spin_until(&g2[g], n, Some(std::time::Duration::from_secs(5))) {
+                                    to.fetch_add(1, AO::Relaxed);
+                                }
+                            }
+                        }
+                    }));
+                }
+                for round in 0..rounds {
+                    let rec = &recs[round];
+                    let (nm, l) = shape(round);
+                    let via = ((t + round) % (NVIA as usize - 1)) as i64;
+                    let res = catch_unwind(AssertUnwindSafe(|| {
+                        // equal keys, each built in this thread's own way, before the barrier
+                        let (kc, kg, kh) = (build_key(nm, l, via), build_key(nm, l, via), build_key(nm, l, via));
+                        let arrive = |i: usize| {
+                            starts[round * 3 + i].fetch_add(1, AO::AcqRel);
+                            spin_until(&starts[round * 3 + i], n, None);
+                            if gated {
+                                CUR_GATE.with(|c| c.set(round * 3 + i));
+                            }
+                        };
+                        arrive(0);
+                        let c = rec.register_counter(&kc, &META);
+                        arrive(1);
+                        let g = rec.register_gauge(&kg, &META);
+                        arrive(2);
+                        let h = rec.register_histogram(&kh, &META);
+                        CUR_GATE.with(|c| c.set(usize::MAX));
+                        c.increment(1);
+                        g.increment(1.0);
+                        h.record(t as f64);
+                    }));
+                    if res.is_err() {
+                        panics.fetch_add(1, AO::Relaxed);
+                        // keep the other threads' barriers moving
+                        for i in 0..3 {
+                            if starts[round * 3 + i].load(AO::Acquire) < n {
+                                starts[round * 3 + i].fetch_add(1, AO::AcqRel);
+                            }
+                        }
+                    }
+                }
+                if gated {
+                    metrics::verif::clear();
+                }
+            });
+        }
+    });
+    // quiescence: every thread has finished every round
+    let mut bad = 0;
+    let mut events = 0;
+    for (round, rec) in recs.iter().enumerate() {
+        let (nm, l) = shape(round);
+        let snap = match catch_unwind(AssertUnwindSafe(|| snapshot_json(&rec.snapshotter(), 1))) {
+            Ok(s) => s,
+            Err(_) => json!("panic"),
+        };
+        // harness-side tally only (the verdict is TLC's): counter = n, gauge = n, histogram = every tid once
+        let ok = snap.as_array().map(|a| {
+            a.len() == 3 && a[0]["v"] == json!(n) && a[1]["v"] == json!(n) && {
+                let mut hv: Vec<i64> = a[2]["hv"].as_array().unwrap().iter().map(|x| x.as_i64().unwrap()).collect();
+                hv.sort();
+                hv == (1..=n as i64).collect::<Vec<_>>()
+            }
+        }).unwrap_or(false);
+        if !ok {
+            bad += 1;
+        }
+        out.put(&json!({"ev": "reset", "recs": 1, "w": 1_000_000, "round": base + round}));
+        if snap.is_array() {
+            out.put(&json!({"ev": "round", "mode": if gated { "gated" } else { "free" }, "n": n, "nm": nm, "l": l, "snap": snap}));
+        } else {
+            out.put(&json!({"ev": "panic", "r": 1, "op": "round snapshot"}));
+        }
+        events += 2;
+    }
+    if panics.load(AO::Relaxed) > 0 {
+        out.put(&json!({"ev": "panic", "r": 1, "op": "round thread", "count": panics.load(AO::Relaxed)}));
+        events += 1;
+    }
+    (events, bad, timeouts.load(AO::Relaxed))
+}
+
 fn program_fingerprint(p: &Value) -> String {
     // what was asked of the recorders (not how keys were built)
     p["ops"].as_array().unwrap().iter().map(|o| format!("{}{}{}{}{}{}{}{}{};", o["ev"].as_str().unwrap(), o["r"], o["k"], o["n"], o["l"], o["u"], o["d"], o["op"], o["v"])).collect()
@@ -565,8 +710,36 @@ fn main() {
                 runs += 1;
             }
         }
+        "rounds" => {
+            let n: usize = args.num("threads", 8);
+            let free: usize = args.num("rounds", 2000);
+            let gated: usize = args.num("gated", 200);
+            let chunk = 500; // recorders are created per chunk
+            let (mut ev, mut bad_free, mut bad_gated, mut tmo) = (0, 0, 0, 0);
+            let mut done = 0;
+            while done < free {
+                let k = chunk.min(free - done);
+                let (e, b, _) = run_rounds(n, k, false, done, &mut w);
+                ev += e;
+                bad_free += b;
+                done += k;
+            }
+            let mut gdone = 0;
+            while gdone < gated {
+                let k = chunk.min(gated - gdone);
+                let (e, b, t) = run_rounds(n.min(4), k, true, free + gdone, &mut w);
+                ev += e;
+                bad_gated += b;
+                tmo += t;
+                gdone += k;
+            }
+            w.finish();
+            println!("{}", json!({"mode": mode, "seed": seed, "threads": n, "free_rounds": free, "gated_rounds": gated,
+                                  "events": ev, "bad_free_rounds": bad_free, "bad_gated_rounds": bad_gated, "gate_timeouts": tmo}));
+            return;
+        }
         _ => {
-            eprintln!("usage: c19 record|replay ...");
+            eprintln!("usage: c19 record|replay|rounds ...");
             std::process::exit(2);
         }
     }
